@@ -6,19 +6,21 @@ cd "$(dirname "$0")"
 ID="${1:?property id}"
 TIER="${VERIF_TIER:-${2:-quick}}"
 export CARGO_NET_OFFLINE=true
-export CARGO_TARGET_DIR=/verif/target
+# HV_TARGET_DIR / HV_VERIF_DIR are only set by background exploration runs from a snapshot
+export CARGO_TARGET_DIR="${HV_TARGET_DIR:-/verif/target}"
+VD="${HV_VERIF_DIR:-/verif}"
 export RUST_BACKTRACE=0
-mkdir -p /verif/work /verif/evidence/replays
+mkdir -p "$VD/work" "$VD/evidence/replays"
 # the lock file of the code under test pins every dependency version (offline registry)
 if ! cmp -s /repo/Cargo.lock harness/Cargo.lock.src 2>/dev/null; then
   cp /repo/Cargo.lock harness/Cargo.lock.src
   cp /repo/Cargo.lock harness/Cargo.lock
 fi
-LOG=/verif/work/build.log
+LOG="$VD/work/build.log"
 # serialise concurrent builds; cargo itself also locks the target dir
-if ! ( flock 9; cargo build --release --offline --manifest-path harness/Cargo.toml >"$LOG" 2>&1 ) 9>/verif/work/.build.lock; then
+if ! ( flock 9; cargo build --release --offline --manifest-path harness/Cargo.toml >"$LOG" 2>&1 ) 9>"$VD/work/.build.lock"; then
   echo "hv: build failed (see $LOG)" >&2
   tail -40 "$LOG" >&2
   exit 2
 fi
-exec /verif/target/release/hv "$ID" --tier "$TIER" --seed "${VERIF_SEED:-1}"
+exec "$CARGO_TARGET_DIR/release/hv" "$ID" --tier "$TIER" --seed "${VERIF_SEED:-1}"
